@@ -62,6 +62,17 @@ Theorem C02_instr_keeps_types : forall e, env_okb e = true -> forall i k fn s s1
 Proof. exact simple_agree. Qed.
 Print Assumptions C02_instr_keeps_types.
 
+(* MAP over a NON-EMPTY map (control.py MapInstruction + MapType.from_items; any comparable key type, composite keys
+   included): whatever values the body returns (all of one type b), the rebuilt map has exactly the keys of the source,
+   the key type of the source and value type b, and passes from_items' checks *)
+Theorem C02_map_keeps_key_types : forall kt vt b l ys,
+  pv_typedb (PMap kt vt l) (TMap kt vt) = true -> Forall (fun y => pv_typedb y b = true) ys -> length ys = length l -> l <> [] ->
+  map_from_items (py_rekey l ys) = Some (PMap kt b (py_rekey l ys)) /\
+  pv_typedb (PMap kt b (py_rekey l ys)) (TMap kt b) = true /\
+  map py_key (py_rekey l ys) = map py_key l.
+Proof. exact map_map_types. Qed.
+Print Assumptions C02_map_keeps_key_types.
+
 (* the defect: MAP over an empty list keeps the source type *)
 Theorem C02_preservation_refuted : exists e fuel code st st' inputs stf,
   env_okb e = true /\ in_fragment code /\ typecheck code st = Some (Typed st') /\ stack_typed inputs st /\
